@@ -13,7 +13,7 @@ PROP = 'C20'
 MANIFEST = dict(
     technique='TLA+ model Secondary (scenes.image container state machine; per-format case enumeration with Decay/Representable laws in SecondaryOps) checked by TLC; every container transition and every enumerated case replayed on the real writers/readers; implementation records validated by TLC (SecondaryTrace)',
     category='model_checking',
-    text='TLC exhausts the scenes.image container design (3 file names, a second spelling of one of them, 3 scenes, 2 save slots, versions 2 and 3, saving from a dictionary or a list with the encoding argument omitted (thorough: also given), Latin-1 letters in the strings of the scenes, histories of Add/Drop/Rename/Save/Load/Merge/Touch; a renamed entry keeps its stale dictionary key) with sorted-and-distinct-checksum and summary-consistency invariants (duration, last-speak, sounds defined over the abstract event list), and every transition is replayed on real Entry dictionaries, the saved bytes being decoded by the harness itself (header, table, summaries) and required to be identical after read-and-write-again. The encoding of the string pool is enumerated separately (character class ascii/latin1/wide x encoding argument omitted/latin1/utf8 x version x dict/list: refusal, file bytes decoded by the harness, real reader). For command sequences, choreo scenes (text and binary), soundscripts, VMT, PCF and SMD TLC enumerates the optional-block / enum-member combinations (every event type x every feature, field-width classes, strings with Latin-1 letters and with characters beyond U+00FF in every text-carrying field ordered multimaps in every shape (keys repeated in the same and another case, leaf after block and block after leaf of one name, empty blocks, 3 levels; every container-typed field found by reflection must have a repeated-member case), (refused by the ASCII formats cmdseq / SMD / PCF-via-DMX, carried by the others), value-range forms, block shapes: ~7,900 cases); each is built through the API, written, read, written again, and TLC requires the read value to equal Decay(format, value) field by field, the second output to equal the first, non-representable command sequences to be refused, and the command-sequence file size to equal the layout formula. Seeded random values and the sample files under tests/ (Read; Write; Read) are validated the same way.',
+    text='TLC exhausts the scenes.image container design (3 file names, a second spelling of one of them, 3 scenes, 2 save slots, versions 2 and 3, saving from a dictionary or a list with the encoding argument omitted (thorough: also given), Latin-1 letters in the strings of the scenes, histories of Add/Drop/Rename/Save/Load/Merge/Touch; a renamed entry keeps its stale dictionary key) with sorted-and-distinct-checksum and summary-consistency invariants (duration, last-speak, sounds defined over the abstract event list), and every transition is replayed on real Entry dictionaries, the saved bytes being decoded by the harness itself (header, table, summaries) and required to be identical after read-and-write-again. The encoding of the string pool is enumerated separately (character class ascii/latin1/wide x encoding argument omitted/latin1/utf8 x version x dict/list: refusal, file bytes decoded by the harness, real reader). For command sequences, choreo scenes (text and binary), soundscripts, VMT, PCF and SMD TLC enumerates the optional-block / enum-member combinations (every event type x every feature, field-width classes, strings with Latin-1 letters and with characters beyond U+00FF in every text-carrying field every field read in a condition of a writer (found by scanning the writer sources) with the cases around its default - for pair fields both ends default, either end default, both other equal / different, the default in each spelling -, ordered multimaps in every shape (keys repeated in the same and another case, leaf after block and block after leaf of one name, empty blocks, 3 levels; every container-typed field found by reflection must have a repeated-member case), (refused by the ASCII formats cmdseq / SMD / PCF-via-DMX, carried by the others), value-range forms, block shapes: ~7,900 cases); each is built through the API, written, read, written again, and TLC requires the read value to equal Decay(format, value) field by field, the second output to equal the first, non-representable command sequences to be refused, and the command-sequence file size to equal the layout formula. Seeded random values and the sample files under tests/ (Read; Write; Read) are validated the same way.',
     design_ref='4 (C20)',
     note='Weakest fit of the technique (DESIGN 4/C20): for the six formats TLC contributes the enumeration of the input space, the decay/representability definitions and the evaluation of the law on projections, not an independent definition of the bytes (except the command-sequence size and the scenes.image table). PCF bytes can never repeat (fresh element UUIDs per export): the second generation is compared as read back. Pure-Python tree only.',
 )
@@ -256,9 +256,12 @@ def run(tier: str, seed: int) -> int:
         rep = work.path('cover.json')
         core.run_driver('c20_driver.py', ['cover'] + files + [rep], env=env)
         report = json.loads(rep.read_text())
+        gaps = ''
         if report['unknown'] or report['uncovered']:
-            raise MachineryError(f'container fields without a repeated-member case: {report["uncovered"]}; not in the table: {report["unknown"]}')
+            gaps = f'fields without the required cases (repeated member / around the default): {report["uncovered"]}; not in the tables: {report["unknown"]}'
         cov['container_fields_with_repeated_member_cases'] = report['fields']
+        # ... and every field a writer's condition reads (found by scanning the writers) has the cases around its default
+        cov['writer_condition_sites_with_cases'] = len(report.get('sites', []))
         cov['traces_validated_against_impl'] = cov.pop('traces')
         cov['mismatches'] = len(allm)
         cov['exhaustive'] = True
@@ -267,6 +270,9 @@ def run(tier: str, seed: int) -> int:
                        'replayed by its shortest path; every enumerated case of the seven format families; seeded random scenes / '
                        'command sequences / meshes; sample files under tests/ as Read;Write;Read')
         known, new = core.classify(PROP, [sig_of(m) for m in allm])
+        if gaps and not new:
+            # (a violation TLC found is reported as such; a gap in the case tables alone is a machinery failure)
+            raise MachineryError(gaps)
         return core.finish(PROP, tier=tier, seed=seed, t0=t0, coverage=cov, known=known, new=new,
                            assumptions=['pure-Python srctools from /repo/src (Cython accelerators cannot be built here)',
                                         'the DMX binary codec under the PCF layer is C14\'s subject: PCF cases use scalar int/float/bool/string/vec3/colour options only',
